@@ -28,7 +28,7 @@ CHECKS = {
     ),
     "C16": dict(
         text="Partial: decides the per-molecule bookkeeping of the batched Davidson solver (finished only when all roots passed the residual test, finished results frozen, subspace bound, collapse/expansion arithmetic, cap raises), ordering/positivity, RPA <= CIS; monitors orthonormality, residual, agreement with a dense diagonalisation and independence of start guess / amplitude reuse / number of roots / batch composition. TLC checks Davidson incl. liveness (the coded StagnationExit violates DoneMeansConverged on the model); every recorded solve (hooks dav.*) is validated against the model by TLC (DavidsonTrace), and a stagnation exit with residual above tolerance is a violation.",
-        note="The dense reference matrices are assembled with the code's own sigma routine (nov <= 40), so 'eigenpair of the true response matrix' is not decided independently. RPA and heterogeneous-batch solvers have no hooks: API-level predicates only (RPA: residual of both coupled equations, X.X - Y.Y = 1, dense (A-B)(A+B) spectrum, amplitude reuse, batches whose rows finish at different iterations).",
+        note="The dense reference matrices are assembled with the code's own sigma routine (nov <= 40), so only half of 'eigenpair of the true response matrix' is decided independently: the sum A+B of the code's matrices is rebuilt from the SCF Fock builder (no response code involved) and must agree to 1e-9; A-B is not rebuilt. RPA and heterogeneous-batch solvers have no hooks: API-level predicates only (RPA: residual of both coupled equations, X.X - Y.Y = 1, dense (A-B)(A+B) spectrum, amplitude reuse, batches whose rows finish at different iterations).",
         tech="explicit TLA+ model (Davidson) checked by TLC; hook traces of the real solver validated by TLC (DavidsonTrace); monitored eigenpair predicates",
         ref="DESIGN.md §4 C16",
     ),
